@@ -439,6 +439,7 @@ fn check_path(b: &Bounds, events: &[Ev], result: &Result<ParseResult<SymDef>, St
     let mut recoveries = 0usize;
     let mut in_error_path = false;
     let mut shadow_valid = true;                   // false between a recovery and the next full view of the real stack
+    let mut after_recovery = false;                // a recovery has pushed its error state and the lookahead has not been shifted yet
     for (ix, ev) in events.iter().enumerate() {
         match ev {
             Ev::Next(Some(Ok(i))) => pulled.push(*i),
@@ -455,17 +456,24 @@ fn check_path(b: &Bounds, events: &[Ev], result: &Result<ParseResult<SymDef>, St
                     if shadow.is_empty() { shadow.push(*state); }
                     if let Some(l) = shadow.last_mut() { if l.0 == u32::MAX { *l = *state; } }
                     if shadow_valid && shadow.last() != Some(state) { v.push(("C01", format!("driver consulted the action table with state {:?} but the LR run has {:?} on top", state, shadow.last()))); }
-                    if *kind == 0 { detect_stack = if shadow_valid { Some(shadow.clone()) } else { Some(vec![]) }; in_error_path = true; }
+                    if *kind == 0 {
+                        detect_stack = if shadow_valid { Some(shadow.clone()) } else { Some(vec![]) }; in_error_path = true;
+                        if after_recovery { v.push(("C08", "no progress after error recovery: accepts() approved the lookahead for the recovery state, but the parse hits an error action again before shifting it".into())); }
+                    }
                 }
                 if *first && *origin == Origin::Eof && *method == "as_reduce" {
                     if shadow.is_empty() { shadow.push(*state); }
                     if let Some(l) = shadow.last_mut() { if l.0 == u32::MAX { *l = *state; } }
                     if shadow_valid && shadow.last() != Some(state) { v.push(("C01", format!("driver consulted the EOF table with state {:?} but the LR run has {:?} on top", state, shadow.last()))); }
-                    if *kind != 2 { detect_stack = if shadow_valid { Some(shadow.clone()) } else { Some(vec![]) }; in_error_path = true; }
+                    if *kind != 2 {
+                        detect_stack = if shadow_valid { Some(shadow.clone()) } else { Some(vec![]) }; in_error_path = true;
+                        if after_recovery { v.push(("C08", "no progress after error recovery at end of input: accepts() approved EOF for the recovery state, but the EOF action is an error again".into())); }
+                    }
                 }
                 if *origin == Origin::Tok && *method == "as_shift" && *kind == 1 { pending_shift = Some(*state); }
             }
             Ev::TokenToSymbol(i) => {
+                after_recovery = false;
                 shifted.push(*i);
                 // the driver pushes the shift target right after this call
                 if let Some(from) = pending_shift.take() {
@@ -513,6 +521,7 @@ fn check_path(b: &Bounds, events: &[Ev], result: &Result<ParseResult<SymDef>, St
                 for d in dropped { if dropped_all.contains(d) || shifted.contains(d) { v.push(("C16", format!("token {} dropped twice or dropped after being shifted", d))); } dropped_all.push(*d); }
                 detect_stack = None;
                 shadow_valid = false;
+                after_recovery = true;
             }
             _ => {}
         }
